@@ -198,7 +198,6 @@ def run(ctx: common.Ctx) -> None:
                                        "order_seed": 1 + k + 1000 * ctx.seed}})
             ans_a: dict[tuple[int, int], str] = {}
             ans_b: dict[tuple[int, int], str] = {}
-            done_a = 0
             for t, r in pool.imap(tasks, timeout=900):
                 if bad(t, r):
                     continue
@@ -208,7 +207,6 @@ def run(ctx: common.Ctx) -> None:
                 for (i, j), a in zip(res["pairs"], res["ans"]):
                     if a is not None:
                         tgt[(i, j)] = a
-                done_a += t["_walk"] == "rows"
             complete = len(ans_a) == n1 * n1 and len(ans_b) == n1 * n1
             ctx.extra["P1"] = {"pairs": len(ans_a), "of": n1 * n1, "second_walk_pairs": len(ans_b)}
             for pr, a in ans_a.items():
@@ -227,7 +225,8 @@ def run(ctx: common.Ctx) -> None:
             for (i, j), a in ans_a.items():
                 if a[0] == "1":
                     sub_d1[i] |= 1 << j
-            ctx.exhaustive = bool(complete)
+            # the depth-1 universe is enumerated completely; the deeper space is sampled, so ctx.exhaustive stays unset
+            ctx.extra["P1"]["all_ordered_pairs_of_depth1_universe_evaluated"] = bool(complete)
             # chains of the recorded is_proper_subtype answers that do not close (s<t, t<u, not s<u): not a law of the
             # property by themselves, but exactly the item triples on which union simplification can lose an item
             psub_d1 = {i: 0 for i in d1}
@@ -311,7 +310,7 @@ def run(ctx: common.Ctx) -> None:
                                  "names": [names[i], names[j]], "types": [types[i]["s"], types[j]["s"]],  # type: ignore[index]
                                  "P1_answer": bool((sub_d1[i] >> j) & 1), "matrix_answer": bool((m >> j) & 1)})
             # classify violating triples in workers (fresh evaluation, shrinking): all of them up to a cap per raw group
-            cap = 40 if quick else 120
+            cap = 40 if quick else 600
             et: list[dict[str, Any]] = []
             skipped = 0
             for g, cases in sorted(trans.items()):
@@ -440,6 +439,34 @@ def run(ctx: common.Ctx) -> None:
                     u3.add(tuple(sorted(_kf(kinds[i]) for i in tr)))
             ctx.extra["P4"] = {"triples": n_tr, "permutations": 6 * n_tr, "distinct_kind_triples": len(u3),
                                "triples_whose_simplified_repr_depends_on_item_order (not a violation by itself)": sens}
+
+            # --- S: secondary stream (never a verdict): laws on the argument types mypy itself joins/meets/unions while
+            #     checking corpus programs -------------------------------------------------------------------------
+            n_prog = int((150 if quick else 3000) * sc)
+            if n_prog and not os.environ.get("VERIF_C08_NOSTREAM"):
+                from checks.c20 import clean_flags
+                from vlib import corpus
+                cases = [c for c in corpus.load(["check-*.test"]) if not corpus.uses_fixture_only_features(c) and not c.cmd]
+                common.rng_for("C08", "corpus").shuffle(cases)
+                st = [{"fn": "vlib.tasks.c08_stream:corpus_laws", "args": {"files": c.all_files(), "flags": clean_flags(c.flags)},
+                       "_case": c.id} for c in cases[:n_prog]]
+                sec: dict[str, Any] = {"programs": 0, "recorded_calls": 0, "clean_distinct_argument_tuples": 0, "law_evaluations": 0,
+                                       "keys": {}, "examples": {}}
+                for t, r in pool.imap(st, timeout=300):
+                    if not r.get("ok") or r["res"].get("skipped"):
+                        sec["skipped"] = sec.get("skipped", 0) + 1
+                        continue
+                    res = r["res"]
+                    sec["programs"] += 1
+                    sec["recorded_calls"] += res["recorded"]
+                    sec["clean_distinct_argument_tuples"] += res["clean_distinct"]
+                    sec["law_evaluations"] += res["law_evaluations"]
+                    for key, e in res["findings"].items():
+                        sec["keys"][key] = sec["keys"].get(key, 0) + e["n"]
+                        if key not in sec["examples"] and e["examples"]:
+                            sec["examples"][key] = {"case": t["_case"], **e["examples"][0]}
+                sec["keys_not_seen_by_primary_streams"] = sorted(set(sec["keys"]) - set(acc.by_key))
+                ctx.extra["secondary_stream_corpus (not a verdict)"] = sec
 
     # --- verdicts: one witness per mechanism key first, so that every key is written out ----------------------------
     k2 = len({k for k in ctx.cells if not k.startswith(("union3:", "transitivity:"))})
